@@ -500,8 +500,10 @@ class Extractor:
             text = src[item.start:item.end]
             toks = rl.code_tokens(rl.tokenize(text))
             br = rl.match_brackets(toks)
-            # first group ( or {
+            # first group ( or { after the `struct` / `enum` keyword (skips `pub(crate)`)
             k = 0
+            while toks[k].text not in ("struct", "enum", "union"):
+                k += 1
             while toks[k].text not in ("(", "{"):
                 k += 1
             close = br[k]
@@ -550,6 +552,11 @@ class Extractor:
             # visibility normalised to pub (Verus: items mentioned by pub spec functions must be visible)
             it = cur.item if cur is not None else item
             head = src[it.start:it.start + 4]
+            m = re.match(r"pub\s*\([^)]*\)", src[it.start:it.start + 40])
+            if m:
+                add(it.start, it.start + m.end(), "pub", ("rule", "R0-pub", cur_label, d.line))
+                self.count("R0-pub")
+                return
             if head.startswith("pub"):
                 return
             add(it.start, it.start, "pub ", ("rule-ins", "R0-pub", cur_label, d.line))
